@@ -2,7 +2,32 @@
 
 use crate::rng::Rng;
 
+/// characters with a history of special treatment in text handling code
+pub const NAUGHTY: &[char] = &[
+    '\u{feff}', '\u{fffe}', '\u{fffd}', '\u{ffff}', '\u{200b}', '\u{200e}', '\u{202e}', '\u{2028}', '\u{2029}', '\u{85}', '\u{a0}', '\u{ad}',
+    '\u{a4}', '"', '\\', '\'', '\n', '\r', '\t', '\u{7f}', '\u{1b}', '\u{8}', '%', '{', '}', '$', '/', '<', '&', ' ', '\u{0}', '\u{1}', '\u{d7ff}', '\u{e000}',
+    '\u{10000}', '\u{10ffff}', '\u{ff21}', '\u{130}', '\u{131}', '\u{df}', '\u{1e9e}',
+];
+
+/// ordinary text with one naughty character first, last or in the middle
+pub fn naughty_string(rng: &mut Rng) -> String {
+    let n = rng.range(0, 20) as usize;
+    let body: String = (0..n).map(|_| rng.range(0x41, 0x7A) as u8 as char).collect();
+    let c = *rng.pick(NAUGHTY);
+    match rng.below(4) {
+        0 | 1 => format!("{}{}", c, body),
+        2 => format!("{}{}", body, c),
+        _ => {
+            let k = rng.usize_below(body.len() + 1);
+            format!("{}{}{}", &body[..k], c, &body[k..])
+        }
+    }
+}
+
 fn rand_char(rng: &mut Rng) -> char {
+    if rng.chance(1, 16) {
+        return *rng.pick(NAUGHTY);
+    }
     loop {
         let c = match rng.below(12) {
             0 => 0,                                    // NUL
@@ -82,6 +107,11 @@ pub fn pool() -> Vec<String> {
         "\u{1F600}".into(),
         "日本語のテキスト".into(),
     ];
+    for c in NAUGHTY {
+        v.push(format!("{}Station moved", c));
+        v.push(format!("ABC{}", c));
+        v.push(c.to_string());
+    }
     for n in [6usize, 7, 8, 30, 31, 32, 126, 127, 128, 254, 255, 256] {
         v.push(std::iter::repeat('x').take(n).collect());
         v.push(std::iter::repeat('\u{e9}').take(n).collect());
@@ -114,6 +144,9 @@ pub fn mojibake(rng: &mut Rng) -> String {
 pub fn hostile_string(rng: &mut Rng) -> String {
     if rng.chance(1, 12) {
         return mojibake(rng);
+    }
+    if rng.chance(1, 8) {
+        return naughty_string(rng);
     }
     match rng.below(8) {
         0 | 1 => {
